@@ -26,20 +26,58 @@ package diff
 //@   modifies gWritten
 //@   ensures forall x int {gWritten[x]} :: old(gWritten)[x] ==> gWritten[x]
 
+// tgs (trusted here; its contract is checked on every run by the bounded stand-in, which
+// evaluates exactly these clauses on the real function): sentinels first and last, every
+// pair inside the texts, interior pairs name equal lines that are unique in x and in y,
+// and the pairs increase (strictly between interior pairs).
+//@ ghost var gHunkEndX Int
+//@ ghost var gHunkEndY Int
 //@ func tgs
 //@   trusted
 //@   modifies new H_S_diff_pair
 //@   ensures result != nil && fresh(result) && len(result) >= 2
+//@   ensures at(result, lo(result)).x == 0 && at(result, lo(result)).y == 0 && at(result, hi(result)-1).x == len(x) && at(result, hi(result)-1).y == len(y)
+//@   ensures forall K {at(result,K)} :: lo(result) <= K && K < hi(result) ==> 0 <= at(result,K).x && at(result,K).x <= len(x) && 0 <= at(result,K).y && at(result,K).y <= len(y)
+//@   ensures forall K {at(result,K)} :: lo(result) < K && K < hi(result)-1 ==> at(result,K).x < len(x) && at(result,K).y < len(y) && at(x, lo(x) + at(result,K).x) == at(y, lo(y) + at(result,K).y)
+//@   ensures forall K, I {at(result,K), at(x,I)} :: lo(result) < K && K < hi(result)-1 && lo(x) <= I && I < hi(x) && I != lo(x) + at(result,K).x ==> at(x,I) != at(x, lo(x) + at(result,K).x)
+//@   ensures forall K, J {at(result,K), at(y,J)} :: lo(result) < K && K < hi(result)-1 && lo(y) <= J && J < hi(y) && J != lo(y) + at(result,K).y ==> at(y,J) != at(y, lo(y) + at(result,K).y)
+//@   ensures forall K, K2 {at(result,K), at(result,K2)} :: lo(result) <= K && K < K2 && K2 < hi(result) ==> at(result,K).x <= at(result,K2).x && at(result,K).y <= at(result,K2).y
+//@   ensures forall K, K2 {at(result,K), at(result,K2)} :: lo(result) < K && K < K2 && K2 < hi(result)-1 ==> at(result,K).x < at(result,K2).x && at(result,K).y < at(result,K2).y
 
 // lines: the last element exists (no index panic) for every input.
 //@ func lines
 //@   modifies H_Str, new bytes
+//@   ensures result != nil && fresh(result)
 
-// Diff returns nothing exactly when the two texts are byte-identical.
-// (Index safety of the hunk loops relative to tgs is not claimed here: nosafety.)
+// Diff returns nothing exactly when the two texts are byte-identical; every index and
+// slice expression of the hunk loops is in bounds for every pair of texts (relative to
+// tgs's contract); the position bookkeeping is exact: chunk + count == done on both
+// sides at every loop head; every hunk header printed carries the 1-based start of its
+// body (0-based for an empty side) and the number of old/new lines put into the body;
+// hunks are emitted in increasing, non-overlapping order on both sides.
+//@ ghost var gXrow (Array Int Str)
+//@ ghost var gYrow (Array Int Str)
 //@ func Diff
-//@   nosafety
+//@   at call fmt.Fprintf#3: ghost gHunkEndX = 0; gHunkEndY = 0
+//@   at call diff.tgs#1: ghost_after gXrow = rowOf(x); gYrow = rowOf(y)
+//@   at call fmt.Fprintf#4: requires len(a) == 4 && unbox(at(a,lo(a))) == chunk.x && unbox(at(a,lo(a)+1)) == count.x && unbox(at(a,lo(a)+2)) == chunk.y && unbox(at(a,lo(a)+3)) == count.y
+//@   at call fmt.Fprintf#4: requires chunk.x + count.x == done.x + (count.x > 0 ? 1 : 0) && chunk.y + count.y == done.y + (count.y > 0 ? 1 : 0)
+//@   at call fmt.Fprintf#4: requires chunk.x - (count.x > 0 ? 1 : 0) >= gHunkEndX && chunk.y - (count.y > 0 ? 1 : 0) >= gHunkEndY
+//@   at call fmt.Fprintf#4: ghost_after gHunkEndX = done.x; gHunkEndY = done.y
 //@   loop 1: invariant gWritten[addrOf(out)]
-//@   loop 8: invariant gWritten[addrOf(out)]
+//@   loop 1: invariant -1 <= rangeindex && x != nil && y != nil && objOf(ctext) != objOf(x) && objOf(ctext) != objOf(y) && rowOf(x) == gXrow && rowOf(y) == gYrow
+//@   loop 1: invariant 0 <= done.x && done.x <= len(x) && 0 <= done.y && done.y <= len(y) && count.x >= 0 && count.y >= 0
+//@   loop 1: invariant chunk.x + count.x == done.x && chunk.y + count.y == done.y && chunk.x >= gHunkEndX && chunk.y >= gHunkEndY && gHunkEndX >= 0 && gHunkEndY >= 0
+//@   loop 1: invariant len(ctext) == 0 ==> count.x == 0 && count.y == 0
+//@   loop 1: invariant forall K {at(rangeslice,K)} :: lo(rangeslice) + rangeindex < K && K < hi(rangeslice) && at(rangeslice,K).x >= done.x ==> at(rangeslice,K).y >= done.y
+//@   loop 2: invariant done.x <= start.x && start.x <= m.x && done.y <= start.y && start.y <= m.y && start.x - start.y == m.x - m.y
+//@   loop 3: invariant m.x <= end.x && end.x <= len(x) && m.y <= end.y && end.y <= len(y) && end.x - end.y == m.x - m.y
+//@   loop 3: invariant forall J {at(y,J)} :: lo(y) + m.y <= J && J < lo(y) + end.y ==> at(y,J) == at(x, J - lo(y) - m.y + m.x + lo(x))
+//@   loop 4: invariant -1 <= rangeindex && rangeindex < start.x - done.x && chunk.x + count.x == done.x + rangeindex + 1 && chunk.y + count.y == done.y && count.x >= 0 && (len(ctext) == 0 ==> count.x == 0 && count.y == 0) && objOf(ctext) != objOf(x) && objOf(ctext) != objOf(y) && rowOf(x) == gXrow && rowOf(y) == gYrow
+//@   loop 5: invariant -1 <= rangeindex && rangeindex < start.y - done.y && chunk.x + count.x == start.x && chunk.y + count.y == done.y + rangeindex + 1 && count.y >= 0 && (len(ctext) == 0 ==> count.x == 0 && count.y == 0) && objOf(ctext) != objOf(x) && objOf(ctext) != objOf(y) && rowOf(x) == gXrow && rowOf(y) == gYrow
+//@   loop 6: invariant -1 <= rangeindex && rangeindex < end.x - start.x && chunk.x + count.x == start.x + rangeindex + 1 && chunk.y + count.y == start.y + rangeindex + 1 && count.x >= 0 && count.y >= 0 && (len(ctext) == 0 ==> count.x == 0 && count.y == 0) && objOf(ctext) != objOf(x) && objOf(ctext) != objOf(y) && rowOf(x) == gXrow && rowOf(y) == gYrow
+//@   loop 7: invariant -1 <= rangeindex && rangeindex < n && chunk.x + count.x == start.x + rangeindex + 1 && chunk.y + count.y == start.y + rangeindex + 1 && count.x >= 0 && count.y >= 0 && len(ctext) > 0 && objOf(ctext) != objOf(x) && objOf(ctext) != objOf(y) && rowOf(x) == gXrow && rowOf(y) == gYrow
+//@   loop 8: invariant gWritten[addrOf(out)] && -1 <= rangeindex
+//@   loop 9: invariant -1 <= rangeindex && rangeindex < 3 && chunk.x == end.x - 3 && chunk.y == end.y - 3 && count.x == rangeindex + 1 && count.y == rangeindex + 1 && (len(ctext) == 0 ==> rangeindex == -1) && objOf(ctext) != objOf(x) && objOf(ctext) != objOf(y) && rowOf(x) == gXrow && rowOf(y) == gYrow
 //@   ensures old(eqBytes(old, new)) ==> result == nil
 //@   ensures !old(eqBytes(old, new)) ==> result != nil && len(result) > 0
